@@ -221,6 +221,8 @@ Definition wf_local (W : world) (v : value) : bool :=
   | VDecimal s => match dec_parse s with Some _ => true | None => false end
   | VFloat bits => (0 <=? bits) && (bits <? 2 ^ 64) && (fl_isfinite bits || (bits =? fl_pos_inf) || (bits =? fl_neg_inf) || (bits =? fl_nan))
   | VXml k args _ => Nat.eqb (length args) (xml_arity k)
+  | VDuration d => dq_safe d
+  | VPeriod d => dq_safe d
   | VStd k args => Nat.eqb (length args) (match k with SDate => 3 | STime => 4 | SDateTime => 7 end)%nat
   | VEnum c m => enum_has W c m && match lib_kind c with None => true | Some _ => false end && nospace (fst c)
   | VDict kv => forallb scalar_key (map fst kv) && keys_distinct (map fst kv)
@@ -246,9 +248,12 @@ Definition g_array_local (v : value) : bool :=
 (* G2 a member of an inner Enum is written Inner.MEMBER, only Outer is imported *)
 Definition g_enum_local (v : value) : bool :=
   match v with VEnum c _ => match snd c with [_] => true | _ => false end | _ => true end.
-(* G4 QName / XmlDuration / XmlPeriod text pasted unescaped *)
+(* G4 QName text pasted unescaped.  (XmlDuration/XmlPeriod paste their data the same way,
+   but both constructors strip and validate it, so such data is always [dq_safe]: an
+   invariant in [wf_local], not a guard clause — was finding C18-F5 until XmlDuration
+   started stripping its input.) *)
 Definition g_raw_local (v : value) : bool :=
-  match v with VQName t => dq_safe t | VDuration t => dq_safe t | VPeriod t => dq_safe t | _ => true end.
+  match v with VQName t => dq_safe t | _ => true end.
 (* G5 an init=False field whose value is not its default cannot be reconstructed *)
 Definition g_init_local (W : world) (v : value) : bool :=
   match v with
